@@ -21,12 +21,13 @@ Clause → theorem (property text of C13 in /verif/properties.jsonl)
 | listing endpoints show a caller only the CAs it may read                      | `listing_filtered`, `listing_filtered_sem`, `listing_anonymous`, `decision_iff` (per item) |
 | quantifier: every route and method                                            | all table theorems range over `routes` (every pattern × GET/POST/DELETE/OTHER, catch-all arms included); `table_complete` |
 | quantifier: every role built from any subset of permissions, with and without per-CA scoping | every `_sem` theorem and `decision_iff` quantify over an arbitrary `Role` (three arbitrary sets + arbitrary per-CA entries); `builtin_roles`, `admin_allowed_everything` for the built-in ones |
-| quantifier: callers with no, wrong or valid credentials                        | `decision_iff` is over every authentication result; composed with the credential chain in `KM.Props.C20.request_decision` |
+| quantifier: callers with no, wrong or valid credentials                        | `decision_iff` is over every authentication result; `wrong_credentials_refused`: **every** bearer string that is not a genuine credential – an unrelated string just as a near miss (prefix, extension, one changed character, other case) of the admin token or of a session token – is worth exactly no credentials and is refused on every gated row with no server call, for both provider configurations; composed with the credential chain in `KM.Props.C20.request_decision` |
 
 Which row a concrete method + path selects is not a theorem: the table rows are path *patterns*; the
 correspondence run asks the real daemon every row (and the catch-all arms) and compares.
 -/
 import KrillModel.Http.Lemmas
+import KrillModel.Http.AuthLemmas
 namespace KM.Props.C13
 open KM.Generated KM.Http
 
@@ -578,6 +579,52 @@ theorem admin_allowed_everything (p : Permission) (res : Option Handle) :
   | none => simp only [Role.isAllowed, Role.simple, has]; exact hall p
   | some h => simp only [Role.isAllowed, Role.simple, Role.entry, List.lookup, has]; exact hall p
 
+/-! ## `wrong_credentials_refused`: the quantifier "wrong credentials" -/
+
+/-- **Callers with wrong credentials.**  For every configuration (either provider as the primary
+one), every reachable session state, and **every** bearer string `w` that is not a genuine
+credential (`KM.Http.Genuine`: the admin token verbatim, or a session sealed under this instance's
+key – so `w` may be *any* other string: unrelated, or a proper prefix, an extension, a re-cased or
+one-character-off copy of the admin token or of a session token):
+
+* the request is authenticated exactly like the same request without an `Authorization` header
+  (a wrong credential is never worth more than none: on the Unix socket of a mapped peer both act as
+  the peer, everywhere else both act as nobody);
+* where that is nobody (TCP, or a socket peer that is not mapped), every row with a permission gate
+  answers 401/403 and reaches no server operation – whatever the row, the method and the path. -/
+theorem wrong_credentials_refused (cfg : Config) (st : SessState) (hs : CacheSound cfg.key st)
+    (w : Wire) (hw : ¬ Genuine cfg w) (t : Transport) :
+    (authenticate cfg st (.bearer w) t).1 = (authenticate cfg st .absent t).1 ∧
+    ((unixProvider cfg t).isOk = false →
+      ∀ (rt : Route) (segs : List String), rt.gates ≠ [] →
+        (rt.testbedOnly = true → cfg.testbed = true) →
+        (respond cfg.testbed (authenticate cfg st (.bearer w) t).1 rt segs = .unauthorized ∨
+          respond cfg.testbed (authenticate cfg st (.bearer w) t).1 rt segs = .forbidden) ∧
+        serverCalls cfg.testbed (authenticate cfg st (.bearer w) t).1 rt segs = []) := by
+  obtain ⟨h1, h2⟩ := not_genuine_as_absent cfg st hs w hw t
+  refine ⟨by rw [h1, h2], ?_⟩
+  intro hno rt segs hg htb
+  rw [h1]
+  have href : respond cfg.testbed (unixProvider cfg t) rt segs = .unauthorized ∨
+      respond cfg.testbed (unixProvider cfg t) rt segs = .forbidden := by
+    rw [refused_iff cfg.testbed _ rt segs htb]
+    cases hgs : rt.gates with
+    | nil => exact absurd hgs hg
+    | cons g gs => exact ⟨g, by simp, gate_unauthenticated _ hno segs g⟩
+  refine ⟨href, not_served_no_calls _ _ _ _ ?_⟩
+  rcases href with h | h <;> simp [h]
+
+/-- Which strings are genuine is decided by the whole string: in particular no proper prefix and no
+extension of the admin token is (the comparison is generated from admin_token.rs:
+`adminTokenCompare = .equal`). -/
+theorem near_admin_token_not_genuine (cfg : Config) (s : String) (hs : s ≠ cfg.adminToken) :
+    adminTokenCompare = .equal ∧ ¬ Genuine cfg (.text s) := by
+  refine ⟨by decide, ?_⟩
+  intro h
+  rcases h with h | ⟨_, n, u, r, role, h, _⟩
+  · simp only [Wire.text.injEq] at h; exact hs h
+  · cases h
+
 /-! ## Non-vacuity -/
 
 /-- The row for a path pattern and method. -/
@@ -645,5 +692,28 @@ example :
         respond false (.ok "u" (Role.ofConf [.Login, .CaRead] (some ["ca2"]))) g ["api", "v1", "cas", "ca3"] == .forbidden &&
         respond false (.ok "u" (Role.ofConf [.Login, .CaRead] none)) g ["api", "v1", "cas", "ca3"] == .served) = true := by
   decide +kernel
+
+/-- `wrong_credentials_refused` is not vacuous: with admin token `secret`, the strings `s`, `secre`,
+`secret2`, `Secret` and `secret and then some` are not genuine (and `secret` is); over TCP they are
+refused on the state-changing row `POST /api/v1/cas`, under either provider configuration. -/
+example :
+    let cfgOf : AuthType → Config := fun ty =>
+      { authType := ty, adminToken := "secret", users := [], roles := [], unixUsers := [], key := 7,
+        testbed := false }
+    (∀ ty, Genuine (cfgOf ty) (.text "secret")) ∧
+    (∀ ty, ∀ s ∈ ["s", "secre", "secret2", "Secret", "secret and then some"],
+      ¬ Genuine (cfgOf ty) (.text s)) ∧
+    ((findRoute [.lit .l_api, .lit .l_v1, .lit .l_cas] .POST).any fun p =>
+      [AuthType.adminToken, .configFile].all fun ty =>
+        ["s", "secre", "secret2", "Secret", "secret and then some"].all fun s =>
+          respond false (authenticate (cfgOf ty) {} (.bearer (.text s)) .tcp).1 p ["api", "v1", "cas"]
+            != .served &&
+          respond false (authenticate (cfgOf ty) {} (.bearer (.text "secret")) .tcp).1 p
+            ["api", "v1", "cas"] == .served) = true := by
+  refine ⟨fun ty => Or.inl rfl, ?_, by decide +kernel⟩
+  intro ty s hs
+  apply (near_admin_token_not_genuine _ s _).2
+  simp only [List.mem_cons, List.mem_nil_iff, or_false] at hs
+  rcases hs with rfl | rfl | rfl | rfl | rfl <;> show _ ≠ "secret" <;> decide
 
 end KM.Props.C13
